@@ -529,6 +529,63 @@ def _fold_ports(L, repo, ci, init, fn):
     return True
 
 
+def _r5_links_shape(L, repo, FU):
+    ci3, snd = repo.need_method("udp_link", "UDPLink", "send")
+    dst = [canon(c.args[1]) for c in calls_in(snd) if canon(c.func).endswith("sock.sendto") and len(c.args) > 1]
+    L.require("C12.R5", FU, "UDPLink.send", "send() goes to the stored remote endpoint",
+              ["(self.remote_addr, self.remote_port)"], sorted(set(dst)))
+    # interface wrappers pass their arguments through unchanged
+    for modn, cls, skip in (("data_if", "DATAInterface", 0), ("ctrl_if", "CTRLInterface", 0), ("ctrl_if_trx", "CTRLInterfaceTRX", 1)):
+        c4, m4 = repo.need_method(modn, cls, "__init__")
+        L.unit(rel(modn))
+        va = m4.args.vararg.arg if m4.args.vararg else None
+        base = [c for c in calls_in(m4) if canon(c.func).endswith(".__init__")]
+        ok = va is not None and len(base) == 1 and [canon(a) for a in base[0].args] == ["self", "*" + va] \
+            and len(params(m4)) == 1 + skip
+        L.ob("C12.R5", rel(modn), cls + ".__init__", "link arguments are passed through to the base constructor unchanged",
+             "Base.__init__(self, *args)", [canon(c) for c in base], ok, m4.lineno)
+
+
+def _r5_links(L, repo, FU):
+    """send() goes to the stored remote endpoint, and the interface wrappers hand their link arguments to the base
+    constructor unchanged - decided by folding: UDPLink.send(b"x") with the socket's sendto as recording oracle,
+    and every wrapper constructor with the base constructor as recording oracle (positional call with distinct
+    witnesses for remote address / port / bind address / port)."""
+    from consteval import Ev, Unknown, Raised, Opaque
+    try:
+        ci3, snd = repo.need_method("udp_link", "UDPLink", "send")
+        sent = []
+        e = Ev(repo, ci3.mod, env={params(snd)[1]: b"x", "self.remote_addr": "RADDR", "self.remote_port": 4711}, self_cls=ci3)
+        e.hooks = {"self.sock.sendto": lambda a: sent.append(tuple(a))}
+        e.run_block(snd.body)
+        L.require("C12.R5", FU, "UDPLink.send", "send() hands the datagram to the socket for the stored remote endpoint",
+                  [(b"x", ("RADDR", 4711))], sent, line=snd.lineno)
+        for modn, cls, skip in (("data_if", "DATAInterface", 0), ("ctrl_if", "CTRLInterface", 0), ("ctrl_if_trx", "CTRLInterfaceTRX", 1)):
+            c4, m4 = repo.need_method(modn, cls, "__init__")
+            L.unit(rel(modn))
+            got = []
+            e = Ev(repo, c4.mod, env={}, self_cls=c4)
+            e.ignore_calls = ("log.", "logging.")
+            hooks = {}
+            for b_ in repo.mro(c4)[1:]:
+                hooks["%s.__init__" % b_.name] = (lambda a, nm=b_.name: got.append((nm, tuple(a))))
+            e.hooks = hooks
+            args = ["<self>"] + ([Opaque("TRX")] if skip else []) + ["RADDR", 5802, "BADDR", 5702]
+            for k_, v_ in e._bindargs(m4, args, {}):
+                if k_ != "self":
+                    e.env[k_] = v_
+            e.env["self"] = "<self>"
+            e.run_block(m4.body)
+            base_name = repo.mro(c4)[1].name if len(repo.mro(c4)) > 1 else None
+            norm = [(nm, tuple(x for x in a if x != "<self>")) for nm, a in got]
+            L.require("C12.R5", rel(modn), cls + ".__init__", "link arguments (remote address, remote port, bind address, bind port) reach the base constructor unchanged",
+                      [(base_name, ("RADDR", 5802, "BADDR", 5702))], norm, line=m4.lineno)
+    except (Unknown, Raised):
+        _r5_links_shape(L, repo, FU)
+        return
+    L.structural("C12.R5 shape of UDPLink.send and of the interface constructors", _r5_links_shape, L, repo, FU)
+
+
 def r5_ports(L, repo, force_shape=False):
     ci, init = repo.need_method("transceiver", "Transceiver", "__init__")
     fn = "Transceiver.__init__"
@@ -550,20 +607,7 @@ def r5_ports(L, repo, force_shape=False):
     st = {canon(n.targets[0]): canon(n.value) for n in ast.walk(ul) if isinstance(n, ast.Assign)}
     L.require("C12.R5", FU, "UDPLink.__init__", "remote endpoint stored", ("remote_addr", "remote_port"),
               (st.get("self.remote_addr"), st.get("self.remote_port")))
-    ci3, snd = repo.need_method("udp_link", "UDPLink", "send")
-    dst = [canon(c.args[1]) for c in calls_in(snd) if canon(c.func).endswith("sock.sendto") and len(c.args) > 1]
-    L.require("C12.R5", FU, "UDPLink.send", "send() goes to the stored remote endpoint",
-              ["(self.remote_addr, self.remote_port)"], sorted(set(dst)))
-    # interface wrappers pass their arguments through unchanged
-    for modn, cls, skip in (("data_if", "DATAInterface", 0), ("ctrl_if", "CTRLInterface", 0), ("ctrl_if_trx", "CTRLInterfaceTRX", 1)):
-        c4, m4 = repo.need_method(modn, cls, "__init__")
-        L.unit(rel(modn))
-        va = m4.args.vararg.arg if m4.args.vararg else None
-        base = [c for c in calls_in(m4) if canon(c.func).endswith(".__init__")]
-        ok = va is not None and len(base) == 1 and [canon(a) for a in base[0].args] == ["self", "*" + va] \
-            and len(params(m4)) == 1 + skip
-        L.ob("C12.R5", rel(modn), cls + ".__init__", "link arguments are passed through to the base constructor unchanged",
-             "Base.__init__(self, *args)", [canon(c) for c in base], ok, m4.lineno)
+    _r5_links(L, repo, FU)
     # (a) the port plan decided by folding the constructor for witness configurations (base ports, child indexes,
     # with / without a clock generator), interface constructors as capturing oracles
     folded = False if force_shape else _fold_ports(L, repo, ci, init, fn)
